@@ -40,9 +40,28 @@ use super::*;
 use crate::type_entry::verif_te_support::*;
 use crate::type_entry::{StructProperty, StructPropertyState, TypeEntryNewtypeConstraints, Variant};
 
+/// A multiset of at most four identifiers without heap allocation.
+#[derive(Clone, Copy)]
+struct Ids {
+    v: [u64; 4],
+    n: usize,
+}
+
+impl Ids {
+    fn new() -> Self {
+        Ids { v: [0; 4], n: 0 }
+    }
+    fn push(&mut self, x: u64) {
+        if self.n < 4 {
+            self.v[self.n] = x;
+        }
+        self.n += 1;
+    }
+}
+
 /// Specification: the identifiers an entry of this kind contains BY VALUE.
-fn by_value_children(entry: &TypeEntry) -> Vec<u64> {
-    let mut out = Vec::new();
+fn by_value_children(entry: &TypeEntry) -> Ids {
+    let mut out = Ids::new();
     match &entry.details {
         TypeEntryDetails::Enum(e) => {
             for v in &e.variants {
@@ -93,17 +112,17 @@ fn by_value_children(entry: &TypeEntry) -> Vec<u64> {
 }
 
 /// multiset equality for up to four elements
-fn same_multiset(a: &[u64], b: &[u64]) -> bool {
-    if a.len() != b.len() || a.len() > 4 {
+fn same_multiset(a: &Ids, b: &Ids) -> bool {
+    if a.n != b.n || a.n > 4 {
         return false;
     }
     let mut used = [false; 4];
     let mut i = 0;
-    while i < a.len() {
+    while i < a.n {
         let mut found = false;
         let mut j = 0;
-        while j < b.len() {
-            if !found && !used[j] && a[i] == b[j] {
+        while j < b.n {
+            if !found && !used[j] && a.v[i] == b.v[j] {
                 used[j] = true;
                 found = true;
             }
@@ -119,35 +138,34 @@ fn same_multiset(a: &[u64], b: &[u64]) -> bool {
 
 fn check_children(mut entry: TypeEntry, expect_n: usize) {
     let want = by_value_children(&entry);
-    kani::assert(want.len() == expect_n, "[C07/SPEC] harness built an entry of unexpected arity");
-    let fresh: [u64; 4] = [kani::any(), kani::any(), kani::any(), kani::any()];
-    let got: Vec<u64>;
+    kani::assert(want.n == expect_n, "[C07/SPEC] harness built an entry of unexpected arity");
+    let fresh_v: [u64; 4] = [kani::any(), kani::any(), kani::any(), kani::any()];
+    let mut got = Ids::new();
     {
-        let slots = get_child_ids(&mut entry);
-        got = slots.iter().map(|s| s.0).collect();
-        // F1: write through every slot
+        let mut slots = get_child_ids(&mut entry);
+        // F1: write a fresh identifier through every slot
         let mut k = 0;
-        for slot in slots {
+        while k < slots.len() {
+            got.push(slots[k].0);
             if k < 4 {
-                *slot = TypeId(fresh[k]);
+                *slots[k] = TypeId(fresh_v[k]);
             }
             k += 1;
         }
+        core::mem::forget(slots);
     }
     kani::assert(
         same_multiset(&got, &want),
         "[C07/P1] get_child_ids is not exactly the by-value children of the entry",
     );
     let after = by_value_children(&entry);
+    let fresh = Ids { v: fresh_v, n: got.n };
     kani::assert(
-        same_multiset(&after, &fresh[..got.len().min(4)]),
+        same_multiset(&after, &fresh),
         "[C07/F1] writing through the returned slots did not re-point exactly the by-value children",
     );
-    kani::cover!(got.len() == expect_n, "[must] expected arity reachable");
+    kani::cover!(got.n == expect_n, "[must] expected arity reachable");
     core::mem::forget(entry);
-    core::mem::forget(got);
-    core::mem::forget(want);
-    core::mem::forget(after);
 }
 
 fn id() -> TypeId {
